@@ -389,6 +389,8 @@ def weekyear_real(P):
     y0 = lo + 14 + (P[1] * 37 + P[2] * 11 + len(cid)) % max(1, (hi - lo - 24 - span))
     if len(P) > 3:                            # Hebrew (molad-based year starts): a single year per instance
         y0, span = y0 + P[3], 1
+    if cid == "ISO":
+        span = 3                              # (the stretch straddles the 1900-2100 month-start table: more paths per year)
     # a small table window around the stretch (a 180-year if-then-else per year function is most of the cost)
     cal, calc, _lo, _hi = cs.prepare(cid, y0 - 3, y0 + span + 3) if cid in cs.WINDOWED else cs.prepare(cid)
     ymdrecord.install()
